@@ -125,7 +125,7 @@ def run(ck):
                 cases.append(L.mk_case("frag", list(s), sc, "html:div", True))
         for s in XML_TARGETED:
             cases.append(L.mk_case("xml", list(s)))
-        cases += gen_gc_cases(rng, 9000 if ck.quick else 150000)
+        cases += gen_gc_cases(rng, 60000 if ck.quick else 700000)
     res = L.run_all(ck, impl, model, cases, ["--gc"])
 
     stats = {"html": 0, "frag": 0, "xml": 0, "tree_builder_panics": 0, "traces_judged": 0, "suspension_points": 0,
